@@ -9,9 +9,12 @@ with the code (ValueError vs TypeError, and the one KeyError the code can leak).
 default / `check_on_set`, Magnitude bounds) and the constructor-time
 `self._validate(self.default)`.
 
-Not modelled (never passed by the harness): `softbounds`, `step` of the
-Number/Date family (type-checked only), dict-declared Selector objects,
-`compute_default_fn`, the deprecated `List(class_=…)` alias and `set_hook`.
+`setter` is the part of `Parameter.__set__` between the reference handling and
+the store: the deprecated `Number.set_hook` (a small family of hooks as data),
+`_validate`, then the constant / read-only guard.
+
+Not modelled: Number's `softbounds` (never validated by the code), `compute_default_fn`,
+the deprecated `List(class_=…)` alias; dict-declared Selector objects are their list of values.
 -/
 import ParamVerif.Py.Value
 
@@ -30,6 +33,14 @@ inductive PType where
 
 abbrev Bounds := Option (Option PyVal × Option PyVal)
 
+/-- `Number.set_hook(obj, val)`: a small family of hooks, as data.  `double` and `neg` act on
+`bool` / `int` / `float` (`type(v) in (bool, int, float)`) and leave everything else alone. -/
+inductive Hook where
+  | identity                -- `_identity_hook`, or any `lambda obj, v: v`
+  | double                  -- `v * 2`
+  | neg                     -- `-v`
+  | const (k : PyVal)       -- returns `k` whatever it is given
+
 /-- per-case environment: the class table of the user classes, and the regex
 oracle bit `re.match(regex, value) is not None` for the value at hand
 (`re.match` is not modelled; the harness computes the bit with `re` itself). -/
@@ -43,7 +54,8 @@ structure Cfg where
   allowNone : Bool := false
   bounds : Bounds := none                  -- Number family, Range family
   incl : Bool × Bool := (true, true)
-  step : Option PyVal := none              -- Range family only
+  softbounds : Bounds := none              -- Range family (type-checked only)
+  step : Option PyVal := none              -- Number family (type-checked), Range family
   length : Nat := 0                        -- Tuple family
   regex : Bool := false                    -- String / Bytes: a regex is declared
   lenBounds : Option (Option Int × Option Int) := none   -- List.bounds
@@ -53,6 +65,9 @@ structure Cfg where
   checkOnSet : Bool := true
   classes : List Nat := []                 -- ClassSelector.class_
   allowNamed : Bool := true                -- Color
+  hook : Hook := .identity                 -- Number family: `set_hook`
+  constant : Bool := false
+  readonly : Bool := false
 
 abbrev R := Except ErrKind Unit
 def ok : R := .ok ()
@@ -121,6 +136,20 @@ def dateValue (c : Cfg) (v : PyVal) : R :=
 def calendarDateValue (c : Cfg) (v : PyVal) : R :=
   if c.allowNone && v.isNone then ok
   else if (!v.isDt || v.isDatetime) && !(c.allowNone && v.isNone) then valueErr else ok
+
+-- src: Number._validate_step / Integer._validate_step / Date._validate_step / CalendarDate._validate_step
+-- (`step` must be None or of the family's type: a number, an `int`, a date/datetime)
+def stepTypeOk (t : PType) (s : PyVal) : Bool :=
+  match t with
+  | .integer => s.isInt
+  | .date => s.isDt
+  | .calendarDate => s.isDt                    -- isinstance(step, dt.date): datetimes pass
+  | _ => s.isNumber
+
+def numberStep (c : Cfg) : R :=
+  match c.step with
+  | none => ok
+  | some s => if stepTypeOk c.ptype s then ok else valueErr
 
 -- src: Number._validate_bounds   (upper bound first, `not val <= vmax` forms)
 def numberBounds (allowNone : Bool) (bounds : Bounds) (incl : Bool × Bool) (v : PyVal) : R :=
@@ -438,20 +467,24 @@ def colorNamed (c : Cfg) (v : PyVal) : R :=
 
 /-! ### `_validate` of every type -/
 
--- src: Range._validate = Tuple._validate; bounds; (softbounds); step; order
+-- src: Range._validate_bounds(kind='softbound'): only the types of the soft bounds are checked
+-- (DateRange converts them with `_to_datetime` first, which keeps date/datetime-ness)
+def softBoundTypes (c : Cfg) : R := boundTypes c.ptype c.softbounds
+
+-- src: Range._validate = Tuple._validate; bounds; softbounds; step; order
 def rangeValidate (c : Cfg) (value : R) (bounds : R) (v : PyVal) : R :=
-  value ;; tupleLength c v ;; bounds ;; rangeStep c ;; rangeOrder c v
+  value ;; tupleLength c v ;; bounds ;; softBoundTypes c ;; rangeStep c ;; rangeOrder c v
 
 /-- `Parameter._validate(val)` of the parameter described by `c` -/
 def validate (c : Cfg) (x : Ctx) (v : PyVal) : R :=
   match c.ptype with
   | .string => stringValue c v ;; regexCheck c x v
   | .bytes => bytesValue c v ;; regexCheck c x v
-  | .number => numberValue c v ;; numberBounds c.allowNone c.bounds c.incl v
-  | .magnitude => numberValue c v ;; numberBounds c.allowNone c.bounds c.incl v
-  | .integer => integerValue c v ;; numberBounds c.allowNone c.bounds c.incl v
-  | .date => dateValue c v ;; dateBounds c v
-  | .calendarDate => calendarDateValue c v ;; numberBounds c.allowNone c.bounds c.incl v
+  | .number => numberValue c v ;; numberStep c ;; numberBounds c.allowNone c.bounds c.incl v
+  | .magnitude => numberValue c v ;; numberStep c ;; numberBounds c.allowNone c.bounds c.incl v
+  | .integer => integerValue c v ;; numberStep c ;; numberBounds c.allowNone c.bounds c.incl v
+  | .date => dateValue c v ;; numberStep c ;; dateBounds c v
+  | .calendarDate => calendarDateValue c v ;; numberStep c ;; numberBounds c.allowNone c.bounds c.incl v
   | .boolean => booleanValue c v
   | .event => booleanValue c v
   | .tuple => tupleValue c v ;; tupleLength c v
@@ -470,24 +503,71 @@ def validate (c : Cfg) (x : Ctx) (v : PyVal) : R :=
   | .dict => classSelectorValidate c x v
   | .color => colorValue c v ;; colorNamed c v
 
-/-! ### Assignment routes  -- src: Parameter.__set__ (validate, then store)
+/-! ### The setter  -- src: Parameter.__set__ (set_hook, validate, guard, store) -/
 
-What differs between the routes before `Parameter.__set__` is reached, and where
-the value lands:
+/-- `hook(obj, v)` -/
+def applyHook (h : Hook) (v : PyVal) : PyVal :=
+  match h with
+  | .identity => v
+  | .const k => k
+  | .double =>
+    (match v with
+     | .num .bool x => .num .int x.doubleExact        -- True * 2 == 2, an int
+     | .num .int x => .num .int x.doubleExact
+     | .num .float x => .num .float x.doubleFloat
+     | w => w)
+  | .neg =>
+    (match v with
+     | .num .bool x => .num .int x.neg
+     | .num .int x => .num .int x.neg
+     | .num .float x => .num .float x.neg
+     | w => w)
+
+/-- `hasattr(self, 'set_hook')`: the Number family (Date and CalendarDate are Numbers) -/
+def hasHook : PType → Bool
+  | .number | .integer | .magnitude | .date | .calendarDate => true
+  | _ => false
+
+/-- the value `_validate` sees and the store receives: `val = self.set_hook(obj, val)` -/
+def setterValue (c : Cfg) (v : PyVal) : PyVal :=
+  if hasHook c.ptype then applyHook c.hook v else v
+
+/-- where the setter is called from -/
+inductive Situation where
+  | classLevel                      -- `obj is None`
+  | uninitialised                   -- during `__init__` (`_setup_params`)
+  | initialised (same : Bool)       -- an initialised instance; `same` = the value reaching the guard (the hook's output) is the object already held
+  deriving DecidableEq, Repr
+
+-- src: Parameter.__set__, `if self.constant or self.readonly:` (after `_validate`)
+def guard (c : Cfg) (s : Situation) : R :=
+  if c.readonly then typeErr                    -- "Read-only parameter cannot be modified", even on the class
+  else if c.constant then
+    (match s with
+     | .initialised false => typeErr            -- "Constant parameter cannot be modified"
+     | _ => ok)                                 -- class level, during __init__, or the identical object
+  else ok
+
+/-! ### Assignment routes
+
+What differs between the routes before `Parameter.__set__` is reached, where the
+setter is called from, and where the value lands:
 * `Cls(p=v)` -- `_setup_params` does `setattr` on the not yet initialised instance;
-  `obj.p = v` and `obj.param.update(p=v)` (`_update` does `setattr` per key) pass
-  the value unchanged; all three store in the instance's value dictionary;
-* `Cls.p = v` passes the value unchanged and stores in the Parameter's `default`;
+* `obj.p = v` and `obj.param.update(p=v)` (`_update` does `setattr` per key) reach an
+  initialised instance; all three store in the instance's value dictionary;
+* `Cls.p = v` and `Cls.param.update(p=v)` call the setter with `obj = None` and store
+  in the Parameter's `default`;
 * deserialisation first maps the JSON-decoded value through the type's
   `deserialize` classmethod, then goes through the constructor.
-The `__set__` body itself (validate before store) is one piece of code shared by
-all of them; its internal order is modelled where it matters (C02). -/
+That the routes of the real library reach this one setter is observed by the
+harness, not proved. -/
 
 inductive Route where
   | ctorKw        -- `Cls(p=v)`
   | instAttr      -- `obj.p = v`
   | clsAttr       -- `Cls.p = v`
   | update        -- `obj.param.update(p=v)`
+  | clsUpdate     -- `Cls.param.update(p=v)`
   | deser         -- `Cls(**Cls.param.deserialize_parameters(json))`: `v` is the JSON-decoded value
   deriving DecidableEq, Repr
 
@@ -498,7 +578,15 @@ inductive Target where
 
 def Route.target : Route → Target
   | .clsAttr => .classDefault
+  | .clsUpdate => .classDefault
   | _ => .instanceValue
+
+/-- `same` = the assigned object is the one the instance already holds (`val is _old`) -/
+def Route.situation (r : Route) (same : Bool) : Situation :=
+  match r with
+  | .ctorKw | .deser => .uninitialised
+  | .instAttr | .update => .initialised same
+  | .clsAttr | .clsUpdate => .classLevel
 
 /-- `P.deserialize(value)` on a JSON-decoded value; `none` = not modelled here
 (the date types parse strings with `strptime`: C15) or the call raises.
@@ -531,15 +619,20 @@ def storedValue (c : Cfg) (v : PyVal) : PyVal :=
   | .event => .num .bool (.fin 0)
   | _ => v
 
-/-- an assignment through route `r`; non-constant, non-readonly parameters without
-references (the guards are C14 / C02 / C08) -/
-def assign (r : Route) (c : Cfg) (x : Ctx) (v : PyVal) : Outcome :=
+/-- the setter on the value that reached it: hook, validate, guard, store -/
+def setter (c : Cfg) (x : Ctx) (s : Situation) (t : Target) (w : PyVal) : Outcome :=
+  match validate c x (setterValue c w) with
+  | .error e => .rejected e
+  | .ok _ =>
+    match guard c s with
+    | .error e => .rejected e
+    | .ok _ => .stored t (storedValue c (setterValue c w))
+
+/-- an assignment through route `r` (parameters without references: C02 / C08) -/
+def assign (r : Route) (c : Cfg) (x : Ctx) (same : Bool) (v : PyVal) : Outcome :=
   match routeValue r c v with
   | none => .notModelled
-  | some w =>
-    match validate c x w with
-    | .ok _ => .stored r.target (storedValue c w)
-    | .error e => .rejected e
+  | some w => setter c x (r.situation same) r.target w
 
 def Outcome.accepted : Outcome → Bool
   | .stored _ _ => true
@@ -554,6 +647,7 @@ structure Args where
   allowNone : Option Bool := none
   bounds : Option Bounds := none           -- `some none` = `bounds=None` passed
   incl : Option (Bool × Bool) := none
+  softbounds : Option Bounds := none
   step : Option PyVal := none
   length : Option Nat := none
   regex : Bool := false
@@ -564,6 +658,9 @@ structure Args where
   checkOnSet : Option Bool := none
   classes : List Nat := []
   allowNamed : Option Bool := none
+  hook : Option Hook := none
+  constant : Option Bool := none
+  readonly : Option Bool := none
 
 /-- truthiness of a default as the constructors test it -/
 def truthy : PyVal → Bool
@@ -624,12 +721,17 @@ def baseCfg (a : Args) : Cfg :=
   let objs := a.objects.getD []
   { ptype := a.ptype, allowNone := effAllowNone a.ptype (ctorDefault a) a.allowNone,
     bounds := effBounds a.ptype a.bounds,
-    incl := a.incl.getD (true, true), step := a.step, length := 0, regex := a.regex,
+    incl := a.incl.getD (true, true), softbounds := (a.softbounds.getD none), step := a.step, length := 0,
+    regex := a.regex,
     lenBounds := a.lenBounds.getD (some (some 0, none)),
     itemType := a.itemType, isInstance := a.isInstance.getD true,
     objects := objs, checkOnSet := a.checkOnSet.getD (objs.length != 0),
     classes := (match a.ptype with | .dict => [PyVal.cDict] | _ => a.classes),
-    allowNamed := a.allowNamed.getD true }
+    allowNamed := a.allowNamed.getD true,
+    hook := a.hook.getD .identity,
+    -- src: Parameter.__init__ `self.constant = constant or readonly`
+    constant := a.constant.getD false || a.readonly.getD false,
+    readonly := a.readonly.getD false }
 
 /-- the `length` argument as the Tuple constructor receives it -/
 def lengthArg (a : Args) : Option Nat :=
